@@ -155,7 +155,39 @@ def _resolve_closure_calls(raws, raw):
         if cd and cd[0] in raws and raws[cd[0]].get("kind") == "closure":
             t["resolved"] = cd[0]
             n += 1
+            continue
+        # a function item handed over by name (`self.nested(Self::parse_array_body)`): the call is a direct call of that function with the
+        # members of the argument tuple
+        fi = _fn_item(raw, op)
+        if fi and fi in raws and len(t["args"]) == 2:
+            tup = t["args"][1]
+            ops = None
+            if tup.get("k") in ("move", "copy") and not tup["pl"]["p"]:
+                defs = [st["rv"] for b2 in raw["blocks"] for st in b2["stmts"] if "pl" in st and st["pl"]["l"] == tup["pl"]["l"] and not st["pl"]["p"]]
+                if len(defs) == 1 and defs[0].get("k") == "agg" and defs[0].get("agg") == "tuple":
+                    ops = copy.deepcopy(defs[0]["ops"])
+            if ops is not None:
+                t["callee"] = fi
+                t["resolved"] = fi
+                t["args"] = ops
+                t.pop("arg_tys", None)
+                n += 1
     return n
+
+
+def _fn_item(raw, op, depth=0):
+    """path of the function when the operand is a function item (a zero-sized constant), possibly handed on through plain copies"""
+    if not op or depth > 4:
+        return None
+    if op.get("k") == "const":
+        return op.get("fn")
+    if op.get("k") not in ("move", "copy") or op["pl"]["p"]:
+        return None
+    l = op["pl"]["l"]
+    defs = [st["rv"] for b2 in raw["blocks"] for st in b2["stmts"] if "pl" in st and st["pl"]["l"] == l and not st["pl"]["p"]]
+    if len(defs) != 1 or defs[0].get("k") != "use":
+        return None
+    return _fn_item(raw, defs[0]["o"], depth + 1)
 
 
 CLOSURE_CALL = "hv::closure_call"
@@ -623,14 +655,24 @@ def apply(prog, Body):
                 # a closure handed to a generic helper (`fn run<F: FnOnce(..)>(.., f: F) { .. f(x) .. }`) is called there through an
                 # unresolved Fn* call; once the helper's body sits in the caller the closure value is in sight, and the call is the
                 # closure's body like any `let f = |x| ..; f(x)`
-                if _resolve_closure_calls(raws, new_raw):
+                # (.. and a closure body that is now in place may itself call a new helper, `nested(|p| p.parse_array_body())`: a few rounds)
+                for _round in range(3):
+                    if not _resolve_closure_calls(raws, new_raw):
+                        break
                     owner = owner_fn(p)
                     skip = (known_combs.get(owner, set()) if owner in known else set()) | untracked
                     raws[p] = new_raw
                     lowered_raw, ldone = lower_body(raws, p, new_raw, skip - {CLOSURE_CALL})
                     if ldone:
                         new_raw = lowered_raw
+                    raws[p] = new_raw
+                    again_raw, adone = inline_body(raws, known, p, new_raw)
                     raws[p] = b.raw
+                    if adone:
+                        new_raw = again_raw
+                        done = done + [x for x in adone if x not in done]
+                    if not ldone and not adone:
+                        break
                 table[p] = Body(p, new_raw, b.crate, b.config, elab=b.elab)
                 if table_name == "bodies":
                     prog.inlined[p] = done
